@@ -15,6 +15,7 @@ import numpy as np
 
 from . import common as C
 from .common import ctx_for
+from engine import fpcheck
 
 HARNESS = C.Harness("h_core.cpp", assertions=True)
 
@@ -64,6 +65,8 @@ def check_group(rep, g, tier, seed):
             X, Y, out = c.E["x"], c.E["y"], c.vec("out")
             c.eq("matrix", sp.T(out), np.dot(sp.T(X), sp.T(Y)))
             c.eq("closed", np.array(sp.valid_eqs(out), dtype=object), np.array([c.alg.R.zero] * len(sp.valid_eqs(out)), dtype=object))
+            if fam != "Bundle":
+                fpcheck.compare(rep, c, ["out"], 1e-9, "compose_value", n=4)      # 'to working precision in floating point': sampled stand-in
         if feas == 0:
             rep.undecide("C01/%s/compose/feasible_paths" % g, "FEAS", "nf", "no feasible non-throwing path (vacuity guard)")
 
@@ -120,6 +123,8 @@ def check_group(rep, g, tier, seed):
         sp = c.spec
         X, p, out = c.E["x"], c.E["p"], c.vec("out")
         c.eq("homogeneous_action", out, sp.unhom(np.dot(sp.T(X), sp.hom(p))))
+        if fam != "Bundle":
+            fpcheck.compare(rep, c, ["out"], 1e-9, "act_value", n=4)
     if feas == 0:
         rep.undecide("C01/%s/act/feasible_paths" % g, "FEAS", "nf", "no feasible path")
 
